@@ -2,10 +2,13 @@ package main
 
 import (
 	"encoding/json"
+	"errors"
 	"strings"
 
 	dtpb "github.com/google/fhir/go/proto/google/fhir/proto/r4/core/datatypes_go_proto"
 	bpb "github.com/google/fhir/go/proto/google/fhir/proto/r4/core/resources/basic_go_proto"
+	bcrpb "github.com/google/fhir/go/proto/google/fhir/proto/r4/core/resources/bundle_and_contained_resource_go_proto"
+	qpb "github.com/google/fhir/go/proto/google/fhir/proto/r4/core/resources/questionnaire_go_proto"
 	"github.com/verily-src/fhirpath-go/fhirpath"
 	"github.com/verily-src/fhirpath-go/fhirpath/system"
 	"github.com/verily-src/fhirpath-go/fhirpath/zzverif/lib"
@@ -14,7 +17,10 @@ import (
 	"github.com/verily-src/fhirpath-go/internal/fhir"
 	"github.com/verily-src/fhirpath-go/internal/resource"
 	"google.golang.org/protobuf/proto"
+	"google.golang.org/protobuf/reflect/protoreflect"
 )
+
+var errNoIdentity = errors.New("resource has no identity")
 
 // P is one projected probe result. Every probe kind has a fixed set of keys
 // (TLC cannot read an absent record field).
@@ -48,7 +54,7 @@ func guarded(p P, fn func()) string {
 
 func emptyLit(k string) P {
 	return P{"k": k, "nforms": 0, "form": "none", "hasType": false, "type": "", "itype": "", "base": "", "rid": "", "ver": "",
-		"frag": "", "uri": "", "str": "", "msg": "", "site": ""}
+		"frag": "", "uri": "", "str": "", "uriv": "", "prefer": "", "msg": "", "site": ""}
 }
 
 // runLit calls a function returning (*LiteralInfo, error) and projects the
@@ -98,6 +104,8 @@ func runLit(fn func() (*reference.LiteralInfo, error)) (P, *reference.LiteralInf
 		p["nforms"] = n
 		p["form"] = form
 		p["str"] = lit.URIString()
+		p["uriv"] = lit.URI().GetValue() // nil-safe getter: "" when URI() is nil
+		p["prefer"] = lit.PreferRelativeVersionedURIString()
 	}) != "" {
 		return p, nil
 	}
@@ -372,7 +380,11 @@ func aspIdentURL(c *caseRec) map[string]any {
 	abs, _ := runID(func() (*resource.Identity, error) { return reference.IdentityFromAbsoluteURL(c.Text) })
 	abs2 := emptyID("skip")
 	rel, rel2 := runIDTwice(c.Rel, reference.IdentityFromRelativeURI)
-	return map[string]any{"aspect": "identurl", "url": url, "url2": url2, "abs": abs, "abs2": abs2, "rel": rel, "rel2": rel2}
+	// package resource: unanchored "…Type/id" and absolute "…/Type/id/_history/v" parsers
+	rurl, rurl2 := runIDTwice(c.Text, resource.NewIdentityFromURL)
+	rhist, _ := runID(func() (*resource.Identity, error) { return resource.NewIdentityFromHistoryURL(c.Text) })
+	return map[string]any{"aspect": "identurl", "url": url, "url2": url2, "abs": abs, "abs2": abs2, "rel": rel, "rel2": rel2,
+		"rurl": rurl, "rurl2": rurl2, "rhist": rhist}
 }
 
 func litOf(ref *dtpb.Reference) P {
@@ -516,7 +528,38 @@ func aspCanon(c *caseRec) map[string]any {
 			return resource.NewCanonicalIdentity(c.Base, c.Ver, c.Rid)
 		})
 	}
-	return map[string]any{"aspect": "canon", "parsed": parsed, "reparsed": reparsed, "made": made, "ctor": ctor}
+	fromRes, verRes, fragRes, idRes := skipStr(), skipStr(), skipStr(), emptyCan("skip")
+	if c.Kind == "canon" {
+		// a canonical resource carrying url, version and (as its id) the fragment
+		q := &qpb.Questionnaire{Url: &dtpb.Uri{Value: c.Base}}
+		if c.Ver != "" {
+			q.Version = &dtpb.String{Value: c.Ver}
+		}
+		if c.Rid != "" {
+			q.Id = &dtpb.Id{Value: c.Rid}
+		}
+		canStr := func(fn func(fhir.CanonicalResource) (*dtpb.Canonical, error)) P {
+			p := P{"k": "ok", "s": "", "msg": "", "site": ""}
+			var cv *dtpb.Canonical
+			var err error
+			if guarded(p, func() { cv, err = fn(q) }) != "" {
+				return p
+			}
+			if err != nil {
+				p["k"] = "err"
+				p["msg"] = msgOf(err)
+				return p
+			}
+			p["s"] = cv.GetValue()
+			return p
+		}
+		fromRes = canStr(canonical.FromResource)
+		verRes = canStr(canonical.VersionedFromResource)
+		fragRes = canStr(canonical.FragmentFromResource)
+		idRes, _ = runCan(func() (*resource.CanonicalIdentity, error) { return canonical.IdentityOf(q) })
+	}
+	return map[string]any{"aspect": "canon", "parsed": parsed, "reparsed": reparsed, "made": made, "ctor": ctor,
+		"fromRes": fromRes, "verRes": verRes, "fragRes": fragRes, "idRes": idRes}
 }
 
 // ---------------------------------------------------------------------- pool
@@ -582,4 +625,98 @@ func aspRaw(c *caseRec) map[string]any {
 	rec["fw"] = readBack(uriRef(c.Text))
 	rec["fj"] = readBackJSON(c.Text)
 	return rec
+}
+
+// ------------------------------------------------------------------ fromres
+
+// newResource builds an empty resource of the named R4 type with id and
+// meta.versionId set, by reflection on the google/fhir descriptors only.
+func newResource(typ, rid, ver string) fhir.Resource {
+	cr := (&bcrpb.ContainedResource{}).ProtoReflect()
+	oo := cr.Descriptor().Oneofs().Get(0)
+	for i := 0; i < oo.Fields().Len(); i++ {
+		fd := oo.Fields().Get(i)
+		if string(fd.Message().Name()) != typ {
+			continue
+		}
+		m := cr.NewField(fd).Message()
+		idf := m.Descriptor().Fields().ByName("id")
+		idm := m.Mutable(idf).Message()
+		idm.Set(idm.Descriptor().Fields().ByName("value"), protoreflect.ValueOfString(rid))
+		if ver != "" {
+			mf := m.Descriptor().Fields().ByName("meta")
+			meta := m.Mutable(mf).Message()
+			vf := meta.Descriptor().Fields().ByName("version_id")
+			vm := meta.Mutable(vf).Message()
+			vm.Set(vm.Descriptor().Fields().ByName("value"), protoreflect.ValueOfString(ver))
+		}
+		res, ok := m.Interface().(fhir.Resource)
+		if !ok {
+			lib.Fatal("%s is not a fhir.Resource", typ)
+		}
+		return res
+	}
+	lib.Fatal("no resource type %s in ContainedResource", typ)
+	return nil
+}
+
+func refProbe(fn func() (*dtpb.Reference, error)) P {
+	p := P{"k": "ok", "shape": "", "type": "", "rid": "", "hist": "", "uri": "", "tfield": "", "msg": "", "site": ""}
+	var ref *dtpb.Reference
+	var err error
+	if guarded(p, func() { ref, err = fn() }) != "" {
+		return p
+	}
+	if err != nil {
+		p["k"] = "err"
+		p["msg"] = msgOf(err)
+		return p
+	}
+	if ref == nil {
+		p["k"] = "nilnil"
+		return p
+	}
+	p["tfield"] = ref.GetType().GetValue()
+	m := ref.ProtoReflect()
+	fd := m.WhichOneof(m.Descriptor().Oneofs().ByName("reference"))
+	switch {
+	case fd == nil:
+		p["shape"] = "none"
+	case fd.Name() == "uri":
+		p["shape"] = "uri"
+		p["uri"] = ref.GetUri().GetValue()
+	case fd.Name() == "fragment":
+		p["shape"] = "fragment"
+		p["uri"] = "#" + ref.GetFragment().GetValue()
+	default:
+		p["shape"] = "typed"
+		if rid, ok := m.Get(fd).Message().Interface().(*dtpb.ReferenceId); ok {
+			p["type"] = snakeToCamel(strings.TrimSuffix(string(fd.Name()), "_id"))
+			p["rid"] = rid.GetValue()
+			p["hist"] = rid.GetHistory().GetValue()
+		}
+	}
+	return p
+}
+
+// aspFromRes: identities and references derived from a resource of the type.
+func aspFromRes(c *caseRec) map[string]any {
+	res := newResource(c.Type, c.Rid, c.Ver)
+	ident, _ := runID(func() (*resource.Identity, error) {
+		id, ok := resource.IdentityOf(res)
+		if !ok {
+			return nil, errNoIdentity
+		}
+		return id, nil
+	})
+	strs := P{"k": "ok", "uri": "", "vuri": "", "vok": false, "msg": "", "site": ""}
+	guarded(strs, func() {
+		strs["uri"] = resource.URIString(res)
+		v, ok := resource.VersionedURIString(res)
+		strs["vuri"] = v
+		strs["vok"] = ok
+	})
+	typed := refProbe(func() (*dtpb.Reference, error) { return reference.TypedFromResource(res) })
+	weakv := refProbe(func() (*dtpb.Reference, error) { return reference.WeakRelativeVersioned(res) })
+	return map[string]any{"aspect": "fromres", "ident": ident, "strs": strs, "typed": typed, "weakv": weakv}
 }
